@@ -594,6 +594,10 @@ impl BoardMonitor for C07 {
                 return;
             }
         };
+        cx.maximum("longest_record_chars", s.len() as u64);
+        if s.len() >= 90 {
+            cx.count("records-of-90+-chars");
+        }
         let canon = write_fen(m, true);
         if s != canon {
             let field = s.split(' ').zip(canon.split(' ')).position(|(a, b)| a != b).unwrap_or(9);
@@ -706,8 +710,11 @@ impl BoardMonitor for C07 {
 
 /// Converse direction: canonical records written by the model for sound positions.
 pub fn c07_canonical_records(cx: &mut Cx, budget: u64) {
-    for _ in 0..budget {
-        let p = gen::sound_random(&mut cx.rng);
+    for i in 0..budget {
+        let p = if i % 16 == 5 { gen::dense_fragmented_case(&mut cx.rng) } else { gen::sound_random(&mut cx.rng) };
+        if write_placement(&p).len() > 64 {
+            cx.count("canonical-records-with-placement-longer-than-64-chars");
+        }
         for shredder in [true, false] {
             if !shredder && !p.plain_fen_rights() {
                 continue;
@@ -795,7 +802,7 @@ pub fn c09_random_state(cx: &mut Cx) -> (BoardBuilder, &'static str) {
         0..=2 => (to_builder(&gen::scatter(rng)), "scatter"),
         3 => (to_builder(&gen::pin_case(rng)), "pin-lattice"),
         4 => (to_builder(&gen::ep_case(rng)), "ep-lattice"),
-        5 => (to_builder(&gen::castle_case(rng)), "castle-lattice"),
+        5 => (to_builder(&if rng.chance(1, 4) { gen::dense_fragmented_case(rng) } else { gen::castle_case(rng) }), "castle-lattice"),
         _ => {
             let mut bd = to_builder(&gen::sound_random(rng));
             let edits = rng.below(3);
